@@ -10,8 +10,11 @@ SeqSet(s) == {s[i] : i \in DOMAIN s}
 Curs == SeqSet(Consts.curs) \cup {""}
 Vals == {QInt(-40), Zero, Q(1, 2), QInt(7), QInt(40), QInt(1100)}
 Pcts == {QInt(-6), Zero, Q(5, 2), QInt(6), QInt(100), QInt(150)}
+BigPcts == {Q(12345, 10), QInt(1000000)}      \* percentages that are written with a grouping separator and a fraction
 O(q, c) == [q |-> q, cur |-> c]
 Lines == {[form |-> "pct_phrase", w |-> w, p |-> p, x |-> O(x, c)] : w \in {"+", "-", "of", "on", "off"}, p \in Pcts, x \in Vals, c \in Curs}
+    \cup {[form |-> "pct_phrase", w |-> w, p |-> p, x |-> O(x, "")] : w \in {"+", "of", "off"}, p \in BigPcts, x \in {QInt(200), Q(1, 2)}}
+    \cup {[form |-> "pct_total", a |-> O(QInt(200), ""), p |-> p] : p \in BigPcts}
     \cup {[form |-> "pct_what", a |-> O(a, c), b |-> O(b, c)] : a \in Vals, b \in Vals, c \in Curs}
     \cup {[form |-> "pct_total", a |-> O(a, c), p |-> p] : a \in Vals, p \in Pcts, c \in Curs}
 VARIABLE line
